@@ -4,6 +4,7 @@ import (
 	"fmt"
 	"math/big"
 	"runtime"
+	"strings"
 
 	h "verif/harness"
 	"verif/models/abibytes"
@@ -398,6 +399,15 @@ var stdMemOps = func() []stdMemOp {
 			a.Op(h.RETURNDATACOPY)
 		}},
 	}
+	// three stores in a row to a slot whose committed value is non-zero (slot 1) and to a fresh one (slot 2): every
+	// (original, current, new) transition of the net-metering rules, refund counter included
+	ops = append(ops, stdMemOp{"SSTORE x3 to slots 1 and 2 (v3,v2,v1)", 3, func(a *h.Asm, v []*uint256.Int) {
+		for _, slot := range []uint64{1, 2} {
+			for i := len(v) - 1; i >= 0; i-- {
+				a.Push(v[i]).PushU(slot).Op(h.SSTORE)
+			}
+		}
+	}})
 	for _, k := range []byte{h.CALL, h.CALLCODE, h.DELEGATECALL, h.STATICCALL} {
 		kind := k
 		for _, tgt := range []common.Address{h.ContractAddr(1), common.BytesToAddress([]byte{4})} {
@@ -579,7 +589,9 @@ func genHostile(c Case, tier string) []hostileCase {
 				}
 				lo.emit(a, ops)
 				a.Op(h.STOP)
-				out = append(out, hostileCase{h.BaseWorld([][]byte{a.Bytes(), {h.STOP}}), h.EnvSpec{Fork: f}, []h.TxSpec{{Entry: h.ECall, From: h.Sender, To: h.ContractAddr(0), Gas: 400000, Input: []byte{1, 2, 3, 4, 5, 6, 7, 8, 9, 10, 11, 12, 13, 14, 15, 16, 17, 18, 19, 20, 21, 22, 23, 24, 25, 26, 27, 28, 29, 30, 31, 32, 33}}},
+				w := h.BaseWorld([][]byte{a.Bytes(), {h.STOP}})
+				w.Get(h.ContractAddr(0)).Storage[h.HashU(1)] = h.HashU(5)
+				out = append(out, hostileCase{w, h.EnvSpec{Fork: f}, []h.TxSpec{{Entry: h.ECall, From: h.Sender, To: h.ContractAddr(0), Gas: 400000, Input: []byte{1, 2, 3, 4, 5, 6, 7, 8, 9, 10, 11, 12, 13, 14, 15, 16, 17, 18, 19, 20, 21, 22, 23, 24, 25, 26, 27, 28, 29, 30, 31, 32, 33}}},
 					fmt.Sprintf("%s operands %v (top of stack last) memory shape %d fork=%s", lo.name, hexs(ops), shape, f), "stdops", nil})
 			}
 			k := 0
@@ -594,6 +606,65 @@ func genHostile(c Case, tier string) []hostileCase {
 			if k == len(idx) {
 				break
 			}
+		}
+	case "jseq":
+		// sequences of journal instructions over SMALL domains (two names, three slots, two offsets, four types), so that
+		// names meet again with other slots, slots with other names and types, parents with and without changes of their
+		// own, registrations with journals in every order - each operand well formed on its own
+		for it := 0; it < 12; it++ {
+			// every instruction runs in a frame of its own (DELEGATECALL: same storage, same journal account), so that a
+			// refused one ends only its own frame and the sequence goes on
+			var helpers [][]byte
+			var a *h.Asm
+			names := [][]byte{[]byte("a"), []byte("b"), []byte("a")}
+			slots := []uint64{20, 21, 22}
+			offs := []uint64{0, 16}
+			typs := []*uint256.Int{jTypU, jTypP, jTypStr, jTypMap}
+			k := 5 + r.Intn(10)
+			var txt []string
+			for j := 0; j < k; j++ {
+				a = h.NewAsm()
+				nm, sl, of, ty := h.Pick(r, names), h.Pick(r, slots), h.Pick(r, offs), h.Pick(r, typs)
+				sl2 := h.Pick(r, slots)
+				switch r.Intn(9) {
+				case 0:
+					a.MstoreName(memJ, nm).Journal(h.RSVJNAL, h.U(memJ), h.U(sl), ty)
+					txt = append(txt, fmt.Sprintf("reg-ref(%s,%d)", nm, sl))
+				case 1:
+					a.MstoreName(memJ, nm).Journal(h.VSVJNAL, h.U(memJ), h.U(sl), h.U(of), ty)
+					txt = append(txt, fmt.Sprintf("reg-val(%s,%d,%d)", nm, sl, of))
+				case 2:
+					a.Journal(h.IVVVJNAL, h.U(sl), h.U(sl2), h.U(uint64(r.Intn(2))), h.U(of), ty, h.Pick(r, typs))
+					txt = append(txt, fmt.Sprintf("reg-elem-val(%d,%d,%d)", sl, sl2, of))
+				case 3:
+					a.Journal(h.IVVRJNAL, h.U(sl), h.U(sl2), h.U(uint64(r.Intn(2))), ty, h.Pick(r, typs))
+					txt = append(txt, fmt.Sprintf("reg-elem-ref(%d,%d)", sl, sl2))
+				case 4:
+					a.MstoreName(memJ+0x40, nm).Journal(h.IRVVJNAL, h.U(sl), h.U(sl2), h.U(memJ+0x40), h.U(of), ty, h.Pick(r, typs))
+					txt = append(txt, fmt.Sprintf("reg-key-val(%d,%d,%s,%d)", sl, sl2, nm, of))
+				case 5:
+					a.MstoreName(memJ+0x40, nm).Journal(h.IRVRJNAL, h.U(sl), h.U(sl2), h.U(memJ+0x40), ty, h.Pick(r, typs))
+					txt = append(txt, fmt.Sprintf("reg-key-ref(%d,%d,%s)", sl, sl2, nm))
+				case 6:
+					a.Journal(h.VVJNAL, h.U(sl), h.U(of), h.U(16), ty)
+					txt = append(txt, fmt.Sprintf("journal-val(%d,%d)", sl, of))
+				case 7:
+					a.Journal(h.VRJNAL, h.U(sl), ty)
+					txt = append(txt, fmt.Sprintf("journal-ref(%d)", sl))
+				default:
+					a.Push(h.Pick(r, []*uint256.Int{h.U(0), h.U(7), h.U(0x41), h.U(10), new(uint256.Int).Lsh(h.U(9), 128)})).PushU(sl).Op(h.SSTORE)
+					txt = append(txt, fmt.Sprintf("store(%d)", sl))
+				}
+				a.Op(h.STOP)
+				helpers = append(helpers, a.Bytes())
+			}
+			main := h.NewAsm()
+			for j := range helpers {
+				main.PushU(0).PushU(0).PushU(0).PushU(0).PushAddr(h.ContractAddr(j + 1)).PushU(150000).Op(h.DELEGATECALL, h.POP)
+			}
+			main.Op(h.STOP)
+			out = append(out, hostileCase{h.BaseWorld(append([][]byte{main.Bytes()}, helpers...)), h.EnvSpec{Fork: h.Pick(r, []h.Fork{h.Homestead, h.Byzantium, h.Berlin, h.Shanghai, h.Cancun})}, []h.TxSpec{{Entry: h.ECall, From: h.Sender, To: h.ContractAddr(0), Gas: 3_000_000}},
+				"journal sequence: " + strings.Join(txt, " "), "jseq", nil})
 		}
 	case "jp":
 		// call trees with real Aspects bound and a failure at one join-point firing (every early-return path of the call routine)
@@ -663,6 +734,20 @@ func hostileCases(seed uint64, tier string, salt uint64) []Case {
 			for i := range stdMemOps {
 				cs = append(cs, Case{Kind: "stdops", P: []int64{int64(f), int64(i)}, Seed: h.Mix(seed, salt+5, uint64(f), uint64(i))})
 			}
+		}
+		for _, f := range []h.Fork{h.Constantinople, h.Petersburg, h.Istanbul, h.Berlin, h.London} { // (one store-pricing rule each)
+			for i, o := range stdMemOps {
+				if strings.HasPrefix(o.name, "SSTORE") {
+					cs = append(cs, Case{Kind: "stdops", P: []int64{int64(f), int64(i)}, Seed: h.Mix(seed, salt+5, uint64(f), uint64(i))})
+				}
+			}
+		}
+		nj := 60
+		if !quick(tier) {
+			nj = 3000
+		}
+		for i := 0; i < nj; i++ {
+			cs = append(cs, Case{Kind: "jseq", Seed: h.Mix(seed, salt+6, uint64(i))})
 		}
 		// (C20's work counters would charge an Aspect's own execution to the neighbouring instruction)
 		for i := 0; i < nm/2; i++ {
